@@ -5,6 +5,7 @@ The only state kept between lines is the current layout (set by `L`).
 import TmVerif.Driver.MapperCmd
 import TmVerif.Driver.LoopCmd
 import TmVerif.Driver.BytesCmd
+import TmVerif.Driver.EscapeCmd
 
 open TmVerif TmVerif.Proto
 
@@ -26,6 +27,9 @@ def handleLine (st : DriverState) (line : String) : DriverState × String :=
     | some r => (st, r)
     | none =>
     match BytesCmd.handle toks with
+    | some r => (st, r)
+    | none =>
+    match EscapeCmd.handle toks with
     | some r => (st, r)
     | none => (st, "bad-request")
 
